@@ -51,6 +51,14 @@ def hist_term(r, tol, tau):
       tol, tau, q(r["b"]), r["k"], r["n"], r["p"], "; ".join(rec_term(s) for s in steps))
 
 
+def states_terms(r, tol, tau):
+  out = []
+  for ax in r["axes"]:
+    out.append("chk_states %s %s %s %d%%nat %d%%positive [%s]" % (
+        tol, tau, q(r["b"]), ax["n"], r["p"], "; ".join(rec_term(s) for s in ax["steps"])))
+  return out
+
+
 def gen_cases(ctx):
   rng = ctx.rng
   quick = ctx.tier == "quick"
@@ -75,7 +83,15 @@ def gen_cases(ctx):
                           T=rng.rint(1, 6 if quick else 10), hist=hk[i % len(hk)],
                           algo=rng.choice(["S_ADA", "S_ADA", "ADA_FD", "RFD_SON", "FD_SON"]),
                           delta=rng.choice([0.5, 0.0, 1e-3]), lr=rng.choice([0.25, 0.125])))
-  return ds_cases + tf_cases, oco_cases
+  # Distributed Shampoo's FD root inside the optimizer (public init/update; vmap => no SVD capture)
+  opt_cases = []
+  for i in range(10 if quick else 60):
+    k = rng.rint(1, 2)
+    opt_cases.append(dict(impl="ds_opt", seed=rng.next(), d0=rng.rint(k + 3, 5 if quick else 6),
+                          d1=rng.rint(k + 3, 5 if quick else 6), k=k, T=rng.rint(2, 4 if quick else 6),
+                          b=rng.choice(bs), hist=hk[i % len(hk)], ridge=rng.choice([0.0, 1e-6]),
+                          expo=rng.choice([0, 0, 2])))
+  return ds_cases + tf_cases + opt_cases, oco_cases
 
 
 def run_impl(cases32, cases64):
@@ -103,16 +119,47 @@ def evaluate(ctx, results, tag):
     if "exc" in r:
       continue
     tol, tau = tol_of(r)
-    terms.append(hist_term(r, tol, tau))
-    idx.append(i)
+    if r["case"]["impl"] == "ds_opt":
+      for t in states_terms(r, tol, tau):
+        terms.append(t)
+        idx.append(i)
+    else:
+      terms.append(hist_term(r, tol, tau))
+      idx.append(i)
   vals = ctx.coq_eval(tag, HEADER, terms, per_shard=8, timeout=1800)
   for i, v in zip(idx, vals):
-    results[i]["code"] = int(v.replace("%Z", "").replace("(", "").replace(")", ""))
+    code = int(v.replace("%Z", "").replace("(", "").replace(")", ""))
+    if results[i]["case"]["impl"] == "ds_opt":
+      results[i].setdefault("axis_codes", []).append(code)
+      results[i].setdefault("code", 0)
+    elif results[i].get("code", 0) == 0:
+      results[i]["code"] = code
   return results
 
 
 def report(ctx, results):
   seen = set()
+  known = common.load_known_findings("C09")
+  d16 = [k for k in known if k.get("id") == "C09-D16"]
+  for r in results:
+    # optimizer path: one verdict per axis; the open finding C09-D16 covers exactly the statistics
+    # smaller than the largest one of the tree
+    if "axis_codes" in r and "exc" not in r:
+      c = r["case"]
+      dims = (c["d0"], c["d1"])
+      for ax, code in enumerate(r["axis_codes"]):
+        if code == 0:
+          continue
+        if d16 and dims[ax] < max(dims):
+          if "C09-D16" not in seen:
+            seen.add("C09-D16")
+            ctx.known("C09-D16 FD sketch of a statistic smaller than the tree's largest is corrupted by "
+                      "row padding/slicing of the packed preconditioner (witness: %s axis %d, code %d)"
+                      % (json.dumps(c), ax, code % 100))
+          continue
+        if r["code"] == 0:
+          r["code"] = code
+          r["failing_axis"] = ax
   for r in results:
     c = r["case"]
     key = json.dumps(c, sort_keys=True)
@@ -126,13 +173,17 @@ def report(ctx, results):
                                             trace=r.get("trace"),
                                             theorem_or_check="harness/impl/c09_worker.py"))
       continue
-    nontrivial = any(max(s["s"][r["k"]:] + [0.0]) > 0 for s in r["steps"])  # some mass escapes
+    steps_all = r["steps"] if "steps" in r else [s for ax in r["axes"] for s in ax["steps"]]
+    if "steps" in r:
+      nontrivial = any(max(s["s"][r["k"]:] + [0.0]) > 0 for s in steps_all)  # some mass escapes
+    else:
+      nontrivial = any(s["t"] > 0 for s in steps_all)
     ctx.case(key, nontrivial,
-             sample=dict(case=c, last_state=dict(l=r["steps"][-1].get("l", r["steps"][-1].get("sqrt_l")),
-                                                 t=r["steps"][-1]["t"]), code=r["code"])
+             sample=dict(case=c, last_state=dict(l=steps_all[-1].get("l", steps_all[-1].get("sqrt_l")),
+                                                 t=steps_all[-1]["t"]), code=r["code"])
              if ctx.cov["evaluations"] % 17 == 0 else None)
     ctx.count("%s/%s" % (c["impl"], c["hist"]))
-    ctx.count("steps", len(r["steps"]))
+    ctx.count("steps", len(steps_all))
     if r["code"] == 0:
       continue
     step, code = divmod(r["code"], 100)
@@ -145,8 +196,9 @@ def report(ctx, results):
         input=c, step=step, code=code, expected="chk_history = 0", actual=CODES[code],
         theorem_or_check="C09.Check.chk_history (code %d) / theorems c09_fd_step_bracket, "
         "c09_tail_recurrence" % code,
-        state_at_failure={k: v for k, v in r["steps"][step].items() if k in
-                          ("l", "sqrt_l", "t", "t_prev", "s", "inv", "const")}),
+        state_at_failure={k: v for k, v in (r["steps"] if "steps" in r else
+                                            r["axes"][0]["steps"])[min(step, len(r.get("steps", r.get("axes", [{}])[0].get("steps", []))) - 1)].items()
+                          if k in ("l", "sqrt_l", "t", "t_prev", "s", "inv", "const")}),
         no_input=False)
 
 
